@@ -101,6 +101,45 @@ def witness_descriptors(flags):
 
 
 _LOCKS, _WITS = {}, {}
+WIDE = ((3, 5), (127, 128), (127, 129), (128, 128), (128, 130), (129, 130), (200, 201), (255, 255))
+
+
+def wide_case(ctx, case):
+    """m-of-n with m, n on both sides of the one-byte signed / unsigned boundaries: builder witnesses of m holders
+    unlock; m-1 holders, no witness, and m signatures including an outsider do not"""
+    m, n = case
+    seed = ctx.seed
+    import nacl.signing
+    sks = [env.sym(seed, 'c13.wide%d' % i) for i in range(n + 1)]
+    pks = [bytes(nacl.signing.SigningKey(k).verify_key) for k in sks]
+    if pks[0] != refed.public_key(sks[0]):
+        raise AssertionError('key derivation mismatch')
+    sf = sigfields(seed, (1, 2))
+    lock = T.make_multisig_lock(pks[:n], m).bytes
+    wit = [T.make_single_sig_witness(k, dict(sf), '00').bytes for k in sks]
+    cnt = 0
+
+    def run(name, parts, want):
+        nonlocal cnt
+        cnt += 1
+        try:
+            v = F.run_auth_scripts([b''.join(parts), lock], dict(sf))
+        except BaseException as e:
+            v = e
+        ctx.ran()
+        ctx.trans(2)
+        ctx.state(('wide', m, n, name))
+        ctx.outcome('wide:%s' % (v if type(v) is bool else 'raised'))
+        if v is not want:
+            ctx.violation({'family': 'multisig', 'clause': 'wide quorum', 'kind': 'accepts' if v is True else 'rejects', 'case': name},
+                          f'{m}-of-{n} {name}: run_auth_scripts {v!r}, expected {want}')
+    run('first m holders', wit[:m], True)
+    run('last m holders', wit[n - m:n], True)
+    run('m-1 holders', wit[:m - 1], False)
+    run('no witness', [], False)
+    run('m-1 holders and an outsider', wit[:m - 1] + [wit[n]], False)
+    run('one holder m times', [wit[0]] * m, m == 1)
+    ctx.evaluations += cnt - 1
 
 
 def build_lock(seed, d):
@@ -297,7 +336,9 @@ def pair_case(ctx, case):
 def blocks(tier, seed):
     flags = FLAGS_Q if tier == 'quick' else FLAGS_T
     nw = len(witness_descriptors(flags))
-    return [Block('witness_x_lock_cross_product', [(i, tier) for i in range(nw)], pair_case,
+    return [Block('multisig_wide_quorums', list(WIDE), wide_case,
+                  'm-of-n for (m, n) in %s: m holders / m-1 holders / nobody / outsider / one holder repeated' % (WIDE,), nshards=len(WIDE)),
+            Block('witness_x_lock_cross_product', [(i, tier) for i in range(nw)], pair_case,
                   '%d witness descriptors x %d lock descriptors x 3 verifier sigfield contexts; every byte of positive witnesses perturbed'
                   % (nw, len(lock_descriptors(flags))), nshards=nw, backstop=3600)]
 
